@@ -112,6 +112,17 @@ theorem subStep_clean (env : Env) (ow : Bool) (fs : FS) (s : Sub) (h : subFailsC
         simp [h1, h2, hk, ht] at h ⊢ <;> simp [writeFile, openThenWrite, h]
   · simp [h1]
 
+/-- the forced hypothesis, as an explicit decidable predicate on the inputs: the step that fails is no later
+    than the FIRST `open(…, "w")` of the run -/
+def failsByFirstOpen (env : Env) (fs : FS) (i : Input) : Bool :=
+  !i.formatOk || !pathFc env i.path || refuses i.overwrite fs i.path ||
+  (if i.multifile then
+     !i.validateOk ||
+     (match i.subs with
+      | s :: _ => subFailsClean env i.overwrite fs s
+      | [] => (match i.dump with | .fail _ => true | .text _ => !i.wr.openOk))
+   else (match i.dump with | .fail _ => true | .text _ => !i.wr.openOk))
+
 /-! ### success of a write -/
 
 theorem writeFile_ok (fs : FS) (p s : String) (w : Wr) (h : (writeFile fs p s w).1 = .ok ()) :
@@ -143,13 +154,14 @@ theorem openThenWrite_ok (fs : FS) (p : String) (d : Outcome) (w : Wr) (h : (ope
         simp [ho, hw, put_put]
 
 theorem subStep_ok (env : Env) (ow : Bool) (fs : FS) (s : Sub) (h : (subStep env ow fs s).1 = .ok ()) :
-    ∃ t, s.text = .text t ∧ (subStep env ow fs s).2 = fs.put s.path t := by
+    ∃ t, s.written fs = .text t ∧ (subStep env ow fs s).2 = fs.put s.path t := by
   unfold subStep at *
   by_cases h1 : (!pathFc env s.path) = true
   · simp [h1] at h
   · by_cases h2 : refuses ow fs s.path = true
     · simp [h1, h2] at h
     · simp only [h1, h2, Bool.false_eq_true, ↓reduceIte] at h ⊢
+      unfold Sub.written
       cases hk : s.kind with
       | cfg =>
         simp only [hk] at h ⊢
@@ -161,5 +173,54 @@ theorem subStep_ok (env : Env) (ow : Bool) (fs : FS) (s : Sub) (h : (subStep env
       | content =>
         simp only [hk] at h ⊢
         exact openThenWrite_ok _ _ _ _ h
+
+/-- the loop of `save_paths`: on success every sub-config file holds its serialised text and every copied
+    file the content its source had at the start, provided the sub-file names are pairwise distinct -/
+theorem saveSubs_ok_get (env : Env) (ow : Bool) (subs : List Sub) (fs : FS)
+    (h : (saveSubs env ow fs subs).1 = .ok ()) (hnd : (subs.map (·.path)).Nodup) :
+    ∀ s ∈ subs,
+      (s.kind = .cfg → ∃ t, s.text = .text t ∧ (saveSubs env ow fs subs).2.get s.path = some t) ∧
+      (s.kind = .content → (∀ r ∈ subs, s.src ≠ r.path) →
+        ∃ t, fs.get s.src = some t ∧ (saveSubs env ow fs subs).2.get s.path = some t) := by
+  induction subs generalizing fs with
+  | nil => intro s hs; cases hs
+  | cons s rest ih =>
+    have hnd' : (rest.map (·.path)).Nodup := (List.nodup_cons.mp hnd).2
+    have hnot : s.path ∉ rest.map (·.path) := (List.nodup_cons.mp hnd).1
+    unfold saveSubs at h ⊢
+    dsimp only at h ⊢
+    cases hstep : (subStep env ow fs s).1 with
+    | error e => simp [hstep] at h
+    | ok u =>
+      cases u
+      simp only [hstep] at h ⊢
+      obtain ⟨t, ht, hfs⟩ := subStep_ok env ow fs s hstep
+      intro s' hs'
+      rcases List.mem_cons.mp hs' with rfl | hin
+      · have hfin : (saveSubs env ow (subStep env ow fs s').2 rest).2.get s'.path = some t := by
+          rw [saveSubs_frame env ow rest _ _ (fun r hr heq => hnot (List.mem_map.mpr ⟨r, hr, heq.symm⟩))]
+          rw [hfs]; exact get_put_same _ _ _
+        constructor
+        · intro hk
+          simp only [Sub.written, hk] at ht
+          exact ⟨t, ht, hfin⟩
+        · intro hk hsrc
+          have hne : s'.src ≠ s'.path := hsrc s' (List.mem_cons_self ..)
+          simp only [Sub.written, hk, readSrc] at ht
+          split at ht
+          · simp at ht
+          · rw [get_put_other _ _ _ _ hne] at ht
+            cases hg : fs.get s'.src with
+            | none => simp [hg] at ht
+            | some t' =>
+              simp only [hg, Outcome.text.injEq] at ht
+              exact ⟨t, by rw [ht], hfin⟩
+      · obtain ⟨ihc, ihp⟩ := ih _ h hnd' s' hin
+        refine ⟨ihc, ?_⟩
+        intro hk hsrc
+        obtain ⟨t', hg, hf⟩ := ihp hk (fun r hr => hsrc r (List.mem_cons_of_mem _ hr))
+        have hne : s'.src ≠ s.path := hsrc s (List.mem_cons_self ..)
+        rw [hfs, get_put_other _ _ _ _ hne] at hg
+        exact ⟨t', hg, hf⟩
 
 end Jap.Save
